@@ -192,7 +192,7 @@ def dispatch_part(ctx, sc, rnd, jobs, labels, picked):
     x = list(ev); x[vi + 3] = 2 if x[vi + 3] != 2 else 1
     st.append({'id': 10 ** 8, 'ev': x})                                  # another decoder kind
     st.append({'id': 10 ** 8 + 1, 'ev': ev[:vi] + ev[vi + W:]})          # the Value state never entered
-    xi = next(i for i in rows if ev[i] == 5)
+    xi = [i for i in rows if ev[i] == 5][-1]          # the outermost frame's return (never a raw-substrate collector)
     x = list(ev); x[xi + 2] = 0
     st.append({'id': 10 ** 8 + 2, 'ev': x})                              # returns no value
     gi = next(i for i in rows if ev[i] == 3 and ev[i + 2] == 2)
